@@ -356,6 +356,14 @@ def main(argv=None):
                     # (exp(1000.0/0.5)*exp(-2.0*t)) turns into inf*0
                     ("states(x=1, y=2)\nparameters(p=1.5)\nk = exp(-(t - 1000.0)/0.5) + 1/(1 + exp(-(x + 20.0)/0.02)) + exp((y - 400.0)/0.25) + log(1 + exp((x + 20.0)/0.02)) + (exp(p*0.001) - 1)\ndx_dt = k - x\ndy_dt = -y\n",
                      {"t": 1000.5, "states": {"x": -20.01, "y": 400.25}, "params": {"p": 1.5}}),
+                    # guards: the branch that is not taken is not finite at the point (log of 0 and of a negative number, division by
+                    # zero, root of a negative number) - a conditional must select, not multiply
+                    ("states(V=-80, c=0.1)\nparameters(c_o=2.0, g=0.3)\ni_c = Conditional(Gt(c, 0), 25.0*log(c_o/c), 0)\ni_V = Conditional(Gt(V, -80.0), g/(V + 80.0), 0)\n"
+                     "w = Conditional(Lt(c, 0), sqrt(-c), 0) + Conditional(Ge(c, 0), sqrt(c), 0)\ndV_dt = -i_c - i_V\ndc_dt = w - c\n",
+                     {"t": 0.0, "states": {"V": -80.0, "c": 0.0}, "params": {"c_o": 2.0, "g": 0.3}}),
+                    ("states(V=-80, c=0.1)\nparameters(c_o=2.0, g=0.3)\ni_c = Conditional(Gt(c, 0), 25.0*log(c_o/c), 0)\ni_V = Conditional(Gt(V, -80.0), g/(V + 80.0), 0)\n"
+                     "w = Conditional(Lt(c, 0), sqrt(-c), 0) + Conditional(Ge(c, 0), sqrt(c), 0)\ndV_dt = -i_c - i_V\ndc_dt = w - c\n",
+                     {"t": 0.0, "states": {"V": -85.0, "c": -0.5}, "params": {"c_o": 2.0, "g": 0.3}}),
                     # constants for which sympy's C printer substitutes a math.h macro (M_PI_4, M_SQRT2, M_LN2, ...)
                     ("states(x=1, y=2)\nk = atan(1)*x + sqrt(2.0)*y + log(2.0) + 2.0/pi + exp(1.0)\nj = (abs(atan(1)) + 2.0)**(x/8) + sqrt(2)*x + log(2)*y + log(10) + 1/pi + pi/2 + exp(1)\n"
                      "dx_dt = k\ndy_dt = j\n", {"t": 0.0, "states": {"x": 0.5, "y": -1.7}, "params": {}})):
